@@ -281,6 +281,26 @@ def correspond(ctx, scale):
                     o1, _ = s1(col)
                     if not torch.equal(o1.reshape(2, 5), o_eval[..., c * len(levels) + di]):
                         failures.append({'key': 'fsq:not-pointwise', 'what': f'FSQ({levels}, num_codebooks={ncb}, sym={sym}): dimension {di} of codebook {c} differs from the scalar map of that entry alone', 'case': dict(levels=levels)})
+            # without noise dropout no random draw may matter: the training output under an ADVERSARIAL generator (every uniform draw exactly 0, or
+            # the largest float below 1) is the same; and the module must not keep an alias of the caller's `levels` list
+            from vlib import callzoo
+            for amode in ('zeros', 'max'):
+                with callzoo.adversarial_rng(torch, amode):
+                    o_adv, i_adv = q(x)
+                dist['adversarial_rng_calls'] = dist.get('adversarial_rng_calls', 0) + 1
+                if not (torch.equal(o_adv, o_train) and torch.equal(i_adv, i_train)):
+                    failures.append({'key': f'fsq:depends-on-random-draws:{amode}', 'what': f'FSQ({levels}, sym={sym}, noise_dropout=0) in training: with every uniform draw at its extreme ({amode}) '
+                                     f'{int((i_adv != i_train).sum())} indices change', 'case': dict(levels=levels)})
+            lv_alias = list(levels)
+            q_alias = FSQ(lv_alias, num_codebooks=ncb, preserve_symmetry=sym)
+            q_alias.eval()
+            o_a1, i_a1 = q_alias(x)
+            for k_ in range(len(lv_alias)):
+                lv_alias[k_] = lv_alias[k_] + 1 if lv_alias[k_] % 2 == 0 else max(2, lv_alias[k_] - 1)      # the caller edits ITS list afterwards (parity of every level flips)
+            o_a2, i_a2 = q_alias(x)
+            dist['constructor_argument_aliasing'] = dist.get('constructor_argument_aliasing', 0) + 1
+            if not (torch.equal(o_a1, o_a2) and torch.equal(i_a1, i_a2)):
+                failures.append({'key': 'fsq:aliases-constructor-argument', 'what': f'FSQ({levels}): editing the caller\'s own levels list after construction changes the module\'s output', 'case': dict(levels=levels)})
             if not (torch.equal(o_eval, o_train) and torch.equal(i_eval, i_train)):
                 failures.append({'key': 'fsq:depends-on-training-flag', 'what': f'FSQ({levels}, sym={sym}) without noise dropout: train and eval outputs differ', 'case': dict(levels=levels)})
             # layouts: image layout = flattened sequence
